@@ -195,7 +195,7 @@ def plan_batch(tier):
     else:
         mix = [("cf_threadpool", 2, 3), ("cf_threadpool", 4, 2), ("serial", 1, 2), ("cf_threadpool", 1, 2), (None, None, 2), ("cf_threadpool", 8, 2),
                ("cf_threadpool", 3, 2)]
-        mixproc = [(be, w, 2) for be in ("mp_pool", "cf_procpool") for w in (2, 4)]
+        mixproc = [(be, 2, 2) for be in ("mp_pool", "cf_procpool")]
         big = ([(be, w, nb, 1, 2) for be in ("mp_pool", "cf_procpool") for w, nb in ((2, 12), (4, 17), (2, 21), (1, 11))]
                + [("cf_threadpool", w, nb, 2, 3) for w, nb in ((2, 11), (4, 13), (3, 17), (8, 21), (1, 12))]
                + [(None, None, 17, 2, 2), ("serial", 1, 13, 2, 2)])
